@@ -240,6 +240,9 @@ func (ex *Exec) store(l *Loc, v Value) {
 		ex.frozenStore(l)
 	}
 	ex.noteAccess(l, true)
+	if l.Parent != nil && l.Parent.Ghost != nil {
+		delete(l.Parent.Ghost, "ns")
+	}
 	ex.storeRaw(l, v)
 }
 
